@@ -17,7 +17,9 @@ UUID_PATTERN = "^%s{36}$" % _UUID_CHAR
 _RC_TRAIT_CHAR = "[A-Z0-9_]"
 _RC_TRAIT_PATTERN = "^%s+$" % _RC_TRAIT_CHAR
 RC_PATTERN = _RC_TRAIT_PATTERN
-_CUSTOM_RC_TRAIT_PATTERN = "^CUSTOM_%s+$" % _RC_TRAIT_CHAR
+# NOTE: \Z, not $: "$" also matches before a trailing newline, which would
+# let a name such as "CUSTOM_A\n" through.
+_CUSTOM_RC_TRAIT_PATTERN = r"^CUSTOM_%s+\Z" % _RC_TRAIT_CHAR
 CUSTOM_RC_PATTERN = _CUSTOM_RC_TRAIT_PATTERN
 CUSTOM_TRAIT_PATTERN = _CUSTOM_RC_TRAIT_PATTERN
 CONSUMER_TYPE_PATTERN = _RC_TRAIT_PATTERN
